@@ -167,11 +167,11 @@ def unsafe_in_process(text: str) -> bool:
 
 
 def crash_trigger(text: str) -> str:
-    for row, line in enumerate(text.split("\n")):
-        for marker in ("#", "/*"):
-            col = line.find(marker)
-            if col >= 0 and (row >= 257 or len(line[:col].encode("utf-8")) >= 257):
-                return "comment-at-row-or-column-above-256"
+    """The Point.row/.column defect needs a row or column >= 257 (smaller ints are immortal): any crash
+    on a text without one is something else."""
+    lines = text.split("\n")
+    if len(lines) > 257 or any(len(line.encode("utf-8")) > 257 for line in lines):
+        return "row-or-column-above-256"
     return "other"
 
 
@@ -509,6 +509,12 @@ def run(ctx: fw.Ctx):
     ctx.extra["doubled_rows_api_only"] = sorted(
         f"{k}.{f}={n}" for (k, f), n in data["table"].items() if n >= 2 and data["table_parsed"].get((k, f), 0) < 2)
     ctx.extra["nesting_bound"] = NESTING_BOUND
+    ctx.extra["fragment"] = (
+        "cost: every class with a rebuild method (the table is generated for all of them; none uncovered); "
+        "failure modes: explicit raise sites and unguarded xs[const]/next(it) sites of all reachable functions; "
+        "there is no Except-valued Lean model of from_cst/rebuild, so absence of implicit exceptions and of "
+        "interpreter crashes is established by observation of the implementation only")
+    ctx.extra["uncovered"] = {}
 
     failures: list = []
     summary: dict = {}
